@@ -57,6 +57,7 @@ struct BufW {
   struct evbuffer *eb = nullptr; Model m;
   bool deferred = false; uint64_t pendA = 0, pendD = 0; bool taint = false;
   int max_chains = 0;
+  bool fd_only = false;   // EVBUFFER_FLAG_DRAINS_TO_FD set: bytes leave only through write / drain (may hold sendfile chains)
   std::vector<int> snap;  // callbacks registered+enabled at op start
 };
 
@@ -70,6 +71,7 @@ struct World {
   bool any_cb_mod_in_turn = false;
   // statistics / non-trivial evidence
   bool saw_multi_chain = false, saw_cross = false, saw_move = false;
+  bool sharing = false; int n_bufref = 0, n_cycle_skips = 0, n_recreate = 0;   // chains shared through add_buffer_reference
   int n_cb_calls = 0, n_toggles = 0, n_selfmod = 0, n_deferred_runs = 0;
   int refs_added = 0, refs_cleaned = 0;
   // OOM mode
@@ -138,6 +140,26 @@ static inline bool crosses(const Geometry &g, size_t x, size_t y) {  // does [x,
   for (size_t bd : g.bounds) if (bd > x && bd < y) return true;
   return false;
 }
+
+// ------------------------------------------------------------------------------------------------
+// evbuffer_add_buffer_reference bookkeeping: a MULTICAST chain keeps a reference on its *source evbuffer*, so moving
+// such a chain into (a buffer that is referenced by ...) its own source builds a reference cycle that is never freed
+// (open finding C15/bufref-cycle-never-freed).  edges(b) = live buffers referenced by b's multicast chains.
+static inline unsigned edges(int bi) {
+  unsigned m = 0;
+  for (struct evbuffer_chain *c = W->B[bi].eb->first; c; c = c->next) if (c->flags & EVBUFFER_MULTICAST) {
+    struct evbuffer_multicast_parent *mp = EVBUFFER_CHAIN_EXTRA(struct evbuffer_multicast_parent, c);
+    for (int k = 0; k < NB; k++) if (W->B[k].eb == mp->source) m |= 1u << k; }
+  return m;
+}
+static inline bool reaches(int from, int to, unsigned seen = 0) {
+  if (from == to) return true; if (seen & (1u << from)) return false; seen |= 1u << from;
+  unsigned e = edges(from); for (int k = 0; k < NB; k++) if ((e & (1u << k)) && reaches(k, to, seen)) return true;
+  return false;
+}
+static inline bool move_would_cycle(int src, int dst) { unsigned e = edges(src); for (int k = 0; k < NB; k++) if ((e & (1u << k)) && reaches(k, dst)) return true; return false; }
+static inline bool has_unreferenceable(int bi) { for (struct evbuffer_chain *c = W->B[bi].eb->first; c; c = c->next) if (c->flags & (EVBUFFER_FILESEGMENT | EVBUFFER_SENDFILE | EVBUFFER_MULTICAST)) return true; return false; }
+static inline bool has_special(int bi) { for (struct evbuffer_chain *c = W->B[bi].eb->first; c; c = c->next) if (c->flags & (EVBUFFER_SENDFILE)) return true; return false; }
 
 // ------------------------------------------------------------------------------------------------
 // change accounting for callbacks (C13); every model mutation goes through these
